@@ -219,6 +219,8 @@ class Ctx:
         replay_obj.setdefault("what", what)
         replay_obj.setdefault("signature", sig)
         replay_obj["failing_input_found"] = bool(found_input)
+        replay_obj.setdefault("seed", self.seed)
+        replay_obj.setdefault("tier", self.tier)
         replay_obj.setdefault("replay_cmd", "./check %s --replay %s" % (self.pid, path))
         with open(path, "w") as f:
             json.dump(replay_obj, f, indent=1, default=str)
